@@ -44,9 +44,67 @@ def corr_violations(pid, tag, cases, accept_pop_diff=True):
                               {"kind": "correspondence", "case": c.to_json(), "first_diff_op": fd, "model": mo, "no_failing_input": True}))
     return viols, {"traces_validated_against_impl": len(mcases), "correspondence_mismatches": nbad, "population_differences_model_vs_impl": popd}
 
+SVIEW = {"Sma": "SpSma", "Cumulative": "SpCumulative", "Min": "SpMin", "Max": "SpMax", "Roc": "SpRoc", "Welford": "SpWelford", "WelfordMean": "SpWelfordMean",
+         "WelfordVar": "SpWelfordVar", "Vst": "SpVst", "Vsct": "SpVsct", "Hln": "SpHln", "Entropy": "SpEntropy", "Ema": "SpEma", "Alma": "SpAlma", "Rsi": "SpRsi",
+         "MyRsi": "SpMyRsi", "Cti": "SpCti", "Net": "SpNet", "Cog": "SpCog", "Ss": "SpSs", "TrendFlex": "SpTrendFlex", "ReFlex": "SpReFlex", "Lrsi": "SpLrsi"}
+def sview_of(d):
+    """Coq `sview` term for a stand-alone descriptor over Echo, or None"""
+    name = d[0]
+    if d[-1] != E:
+        return None
+    if name in SVIEW:
+        return "(%s %d)" % (SVIEW[name], d[1])
+    if name == "Cyber":
+        return "(%s %d)" % ("SpCyber" if d[1] >= 6 else "SpCyberGen", d[1])
+    if name == "Roofing":
+        return "(SpRoofing %d %d)" % (d[1], d[2])
+    if name == "Laguerre":
+        return "(SpLaguerre %s)" % cq(d[1])
+    if name == "EmaAlpha":
+        return "(SpEmaAlpha %d %s)" % (d[1], cq(d[2]))
+    if name == "AlmaCustom":
+        return "(SpAlmaCustom %d %s %s)" % (d[1], cq(d[2]), cq(d[3]))
+    if name in ("WRolling", "WRollingMean", "Drawdown", "LnReturn"):
+        return "Sp" + name
+    return None
+
+def coq_spec_check(pid, cases):
+    """the implementation's outputs against the Coq specification functions the theorems are stated with (SpecExec.v)"""
+    sel = [(c, sview_of(c.desc)) for c in cases if c.obs and c.ctor_ok and all(o[0] == "u" and o[1] == 0 for o in c.ops)]
+    sel = [(c, sv) for c, sv in sel if sv and all(b.kind in ("S", "N") for b in c.obs)]
+    if not sel:
+        return [], {"coq_spec_cases": 0}
+    nsh = min(NPROC, len(sel))
+    shards = [sel[i::nsh] for i in range(nsh)]
+    bodies = []
+    for sh_ in shards:
+        items = []
+        for c, sv in sh_:
+            outs = "; ".join("None" if b.kind == "N" else "Some %s" % cq(b.val) for b in c.obs)
+            items.append("mkscase %s [%s] [%s]" % (sv, "; ".join(cq(x) for x in c.inputs()), outs))
+        bodies.append("From Coq Require Import List ZArith QArith.\nFrom SF Require Import Exec SpecExec.\nImport ListNotations.\nClose Scope Q_scope. Close Scope Z_scope.\n"
+                      "Definition cases : list scase := [\n" + ";\n".join(items) + "\n].\nEval vm_compute in (check_scases cases).\n")
+    res = run_coq_shards(pid + "_spec", bodies)
+    viols = []
+    for sh_, (rc, txt) in zip(shards, res):
+        prs = parse_pairs(txt) if rc == 0 else None
+        if prs is None or len(prs) != len(sh_):
+            raise CoqError("coqc failed on a specification shard of %s:\n%s" % (pid, txt[-2000:]))
+        for (c, sv), (fd, _) in zip(sh_, prs):
+            if fd != 0 and len(viols) < 3:
+                viols.append(("%s-spec-%s" % (pid.lower(), c.desc[0].lower()),
+                              "%s at step %d reports %s, which differs from the Coq specification %s the theorems of %s are stated with" % (d_sexpr(c.desc), fd, c.obs[fd - 1].js(), sv, pid),
+                              {"kind": "oracle-coq-spec", "cases": [c.to_json()], "step": fd}))
+    return viols, {"coq_spec_cases": len(sel)}
+
 def finish(pid, tag, cases, oracle_viols, rule, extra=None):
     cv, st = corr_violations(pid, tag, cases)
     viols = list(oracle_viols)
+    if pid in ("C02", "C04", "C05", "C06", "C10", "C11", "C13"):
+        sv, sst = coq_spec_check(pid, [c for c in cases if c.meta.get("model", True)])
+        keys = {v[0] for v in viols}
+        viols += [v for v in sv if v[0] not in keys]
+        st.update(sst)
     if oracle_viols:
         # a concrete failing input exists: the correspondence failure (if any) is explained by it
         viols += []
